@@ -130,7 +130,7 @@ def check_history(R, runtime, md, t0, ticks, outs, has_ctl, has_cal, hist_fp):
 
 
 def _py_log(R, rng, ctx):
-    from formak.runtime import ManagedFilter
+    from formak.runtime import ManagedFilter, StampedReading
 
     for _ in range(HIST[ctx["tier"]]["py_log"]):
         mi, md, t0, ticks = gen_history(rng)
@@ -150,16 +150,19 @@ def _py_log(R, rng, ctx):
             R.samples.append({"runtime": "py", "max_dt": md, "t0": t0, "ticks": ticks[:3],
                               "returned_tick0": [list(e) for e in outs[0]][:10]})
     # a model with control inputs cannot be ticked without them
-    rec = rtmodel.RecFilter(0.1, control_size=2)
-    mf = ManagedFilter(rec, 0.0, (), None)
-    R.stats.inc("control_missing_typeerror_checks")
-    try:
-        mf.tick(1.0)
-        R.add([K.V("py:tick:control-not-required", "tick() without control accepted for a filter with control inputs")])
-    except TypeError:
-        pass
-    if rec.calls:
-        R.add([K.V("py:tick:control-not-required", "filter was called although control was missing")])
+    for csize in (1, 2, 5):
+        for with_readings in (False, True):
+            rec = rtmodel.RecFilter(0.1, control_size=csize)
+            mf = ManagedFilter(rec, 0.0, (), None)
+            R.stats.inc("control_missing_typeerror_checks")
+            kw = {"readings": [StampedReading(0.5, 0, payload=1)]} if with_readings else {}
+            try:
+                mf.tick(1.0, **kw)
+                R.add([K.V("py:tick:control-not-required", f"tick() without control accepted for a filter with {csize} control input(s)")])
+            except TypeError:
+                pass
+            if rec.calls:
+                R.add([K.V("py:tick:control-not-required", "filter was called although control was missing")])
 
 
 def _cpp_log(R, rng, ctx, i):
